@@ -202,7 +202,7 @@ fn q_host<M: GuestMemory>(m: &M, l: &Lay) {
     let r = m.get_host_address(GuestAddress(a));
     match (&r, own) {
         (Ok(p), Some(i)) => assert!(*p == l.host[i].wrapping_add((a - l.base[i]) as usize)),
-        (Err(e), None) => assert!(gkind(e) == GK::InvalidGuestAddress),
+        (Err(_), None) => {}
         _ => assert!(false),
     }
     kani::cover!(own.is_some() && a > l.base[0]);
@@ -254,9 +254,8 @@ fn q_get_slice<M: GuestMemory>(m: &M, l: &Lay) {
             }
             (Err(e), Some(i)) => {
                 assert!(a as u128 + count as u128 > l.base[i] as u128 + l.size[i] as u128);
-                assert!(gkind(e) == GK::InvalidBackendAddress);
             }
-            (Err(e), None) => assert!(gkind(e) == GK::InvalidGuestAddress),
+            (Err(_), None) => {}
             _ => assert!(false),
         }
     }
@@ -361,7 +360,7 @@ fn region_host_address_real() {
         let r = a.get_host_address(MemoryRegionAddress(o));
         match &r {
             Ok(p) => assert!(o < size && *p == host.wrapping_add(o as usize)),
-            Err(e) => assert!(o >= size && gkind(e) == GK::InvalidBackendAddress),
+            Err(_) => assert!(o >= size),
         }
         kani::cover!(r.is_ok() && o == size - 1);
         kani::cover!(r.is_err() && o == size);
